@@ -44,7 +44,7 @@ ASSUMPTIONS = [
 COMPONENTS = {"real": ["litex.gen.fhdl.verilog.convert (expression.py, memory.py, slice lowerer, namer)", "litex.gen.sim.core.Simulator/Evaluator",
                        "migen lower_basics / MemoryToArray / insert_resets"],
               "stub": ["dsim.vsim Verilog interpreter (ours)", "stimulus driver", "seeded clock source (edge interleaving)", "tracer shim"]}
-CHUNK = 8
+CHUNK = 25
 
 CMP = ["<", "<=", "==", "!=", ">", ">="]
 BITW = ["&", "|", "^"]
@@ -131,11 +131,15 @@ class G:
         self.maxw = 40
         self.cat_targets = True
         self.arr_targets = True
+        self.wild = bool(wild)
 
-    def const(self, hint=None):
+    def const(self, hint=None, neg_ok=False):
         r = self.rng
         w = hint or r.choice([1, 2, 3, 4, 8])
-        return ["c", r.choice([0, 1, (1 << w) - 1, r.getrandbits(w), r.getrandbits(w)])]
+        v = r.choice([0, 1, (1 << w) - 1, r.getrandbits(w), r.getrandbits(w)])
+        if neg_ok and r.random() < 0.4:
+            v = r.choice([-1, -v - 1, -(1 << w), -v])
+        return ["c", v]
 
     def leaf(self, readable, want_unsigned=False, want_sign=None):
         r = self.rng
@@ -146,12 +150,18 @@ class G:
             if cands:
                 return ["s", r.choice(cands)]
             return None
-        return self.const()
+        return self.const(neg_ok=not want_unsigned)
 
     def E(self, readable, depth, want_unsigned=False, maxw=None):
         """width-exact expression (Verilog self-determined width/sign/value == Migen's)."""
         r = self.rng
         maxw = maxw or self.maxw
+        if self.wild and depth > 0 and r.random() < 0.12:
+            # 'wild' family: anything anywhere; the simulator-side monitor (dsim.taint) decides where the semantics part
+            e = self._T(readable, depth)
+            t = mt(e, self.sigs)
+            if t[0] <= 48 and (not want_unsigned or not t[1]):
+                return e
         for _ in range(20):
             e = self._E(readable, depth, want_unsigned)
             t = mt(e, self.sigs)
@@ -172,20 +182,14 @@ class G:
             w = self.sigs[i]["w"]
             lo = r.randrange(w)
             hi = r.randint(lo + 1, w)
-            if lo == 0 and hi == w and self.sigs[i]["s"]:
-                lo = 1 if w > 1 else 0      # full-width slice of a signed signal: see findings (slice dropped by the lowerer)
-                if hi <= lo:
-                    return self.leaf(readable, want_unsigned)
             return ["sl", ["s", i], lo, hi]
         if k == "slx":      # slice of an expression (lowered through a proxy signal)
             e = self.E(readable, depth - 1)
             w = mt(e, self.sigs)[0]
-            if w < 2 or e[0] == "s":
+            if w < 2 or e[0] in ("s", "arr"):        # slicing an Array proxy slices every choice separately (migen)
                 return e if not want_unsigned else self.leaf(readable, True)
             lo = r.randrange(w)
             hi = r.randint(lo + 1, w)
-            if lo == 0 and hi == w:
-                lo = 1
             return ["sl", e, lo, hi]
         if k == "cat":
             return ["cat", [self.E(readable, depth - 1, maxw=16) for _ in range(r.randint(1, 3))]]
@@ -203,7 +207,7 @@ class G:
             if want_unsigned:
                 return self.leaf(readable, True)
             e = self.E(readable, depth - 1)
-            if mt(e, self.sigs)[1]:
+            if mt(e, self.sigs)[1] or self.wild:
                 return ["u", "~", e]
             return e
         if k == "neg":
@@ -242,7 +246,7 @@ class G:
     def _pair(self, readable, depth):
         a, b = self.T(readable, depth), self.T(readable, depth)
         sa, sb = mt(a, self.sigs)[1], mt(b, self.sigs)[1]
-        if sa != sb:
+        if sa != sb and not self.wild:
             # the unsigned one is printed inside $signed({1'd0, ..}) = a self-determined position: must be width-exact
             if not sa and not self.is_exact(a):
                 a = self.E(readable, depth)
@@ -270,7 +274,7 @@ class G:
             return ["b", "<<", self.T(readable, depth - 1), self.E(readable, 0, True, maxw=3)]
         if k == "neg":
             a = self.T(readable, depth - 1)
-            if not mt(a, self.sigs)[1] and not self.is_exact(a):
+            if not mt(a, self.sigs)[1] and not self.is_exact(a) and not self.wild:
                 a = self.E(readable, depth - 1)
             return ["u", "-", a]
         if k == "inv":
@@ -283,7 +287,7 @@ class G:
         if k in ("s",):
             return True
         if k == "c":
-            return e[1] >= 0
+            return True
         if k in ("sl",):
             return self.is_exact(e[1])
         if k == "cat":
@@ -345,7 +349,8 @@ class G:
             else:
                 test = self.E(readable, 1, True, maxw=4)
                 tw = mt(test, self.sigs)[0]
-                keys = r.sample(range(1 << tw), min(1 << tw, r.randint(1, 4)))
+                keys = sorted({r.getrandbits(tw) if r.random() < 0.7 else r.choice([0, 1, (1 << tw) - 1]) for _ in range(r.randint(1, 4))})
+                r.shuffle(keys)
                 cases = [[kk, self.stmts(targets, readable, depth - 1, r.randint(1, 2))] for kk in keys]
                 default = self.stmts(targets, readable, depth - 1, 1) if r.random() < 0.6 else None
                 out.append(["case", test, cases, default])
@@ -379,8 +384,8 @@ def targets_of(st, acc):
 
 def plan(tier):
     if tier == "quick":
-        return [("frag", 320), ("exh", 60), ("mem", 120), ("corpus", 24)]
-    return [("frag", 20000), ("exh", 3000), ("mem", 6000), ("corpus", 400)]
+        return [("frag", 3000), ("wild", 3000), ("exh", 400), ("mem", 1500), ("corpus", 720)]
+    return [("frag", 150000), ("wild", 150000), ("exh", 20000), ("mem", 80000), ("corpus", 36000)]
 
 
 def gen_width(r):
@@ -395,6 +400,8 @@ def generate(family, rng, tier):
         return gen_frag(rng, tier)
     if family == "exh":
         return gen_frag(rng, tier, exh=True)
+    if family == "wild":
+        return gen_frag(rng, tier, wild=True)
     if family == "mem":
         return gen_mem(rng, tier)
     if family == "corpus":
@@ -402,7 +409,7 @@ def generate(family, rng, tier):
     raise ValueError(family)
 
 
-def gen_frag(r, tier, exh=False):
+def gen_frag(r, tier, exh=False, wild=False):
     sigs = []
     two = (not exh) and r.random() < 0.3
     domains = ["sys", "b"] if two else ["sys"]
@@ -432,14 +439,14 @@ def gen_frag(r, tier, exh=False):
         if s:
             rv = rv - (1 << w) if rv >> (w - 1) else rv
         sigs.append({"name": "c%d" % i, "w": w, "s": s, "kind": "comb", "reset": rv, "io": r.random() < 0.6})
-    g = G(r, sigs)
+    g = G(r, sigs, wild=wild)
     regular_comb = r.random() < 0.8
     # regular_comb=False (the Verilator path) emits one always block per target and repeats a Cat(..) assignment in the block
     # of every signal it touches: listed finding C01-F5, so Cat targets are generated in comb only with regular_comb=True
     g.cat_targets = regular_comb
-    # Array(..)[key].eq(..) in comb is lowered to an always @(*) block that reads the intermediate it assigns with <=: under
-    # 1364 event semantics the block re-triggers itself for ever (listed finding C01-F6): Array targets only in sync
-    g.arr_targets = False
+    # (comb blocks that read a signal they assign with <= converge only when zero-width NBA glitches do not re-trigger them:
+    # vsim's default policy; the strict policy is the listed finding C01-F6)
+    g.arr_targets = True
     base = [i for i, s in enumerate(sigs) if s["kind"] in ("in", "reg")]
     combs = [i for i, s in enumerate(sigs) if s["kind"] == "comb"]
     comb = []
@@ -461,7 +468,7 @@ def gen_frag(r, tier, exh=False):
             sync[d] = g.stmts(regs, allsig, 2, r.randint(1, 4))
     # registers never assigned and comb signals never assigned are fine (keep reset)
     ins = [i for i, s in enumerate(sigs) if s["kind"] == "in"]
-    scn = {"family": "exh" if exh else "frag", "signals": sigs, "comb": comb, "sync": sync, "domains": domains,
+    scn = {"family": "exh" if exh else "wild" if wild else "frag", "signals": sigs, "comb": comb, "sync": sync, "domains": domains,
            "reset_less_domains": [d for d in domains if r.random() < 0.2],
            "regular_comb": regular_comb, "proc_seed": r.getrandbits(32)}
     if exh:
@@ -497,7 +504,10 @@ def gen_mem(r, tier):
     width = r.choice([1, 4, 8, 8, 12, 16, 16, 32, 33])
     depth = r.choice([2, 3, 4, 5, 8, 16, 17])
     init = None
-    if r.random() < 0.6:
+    k = r.random()
+    if k < 0.5:
+        init = [r.getrandbits(width) for _ in range(depth)]
+    elif k < 0.75:
         init = [r.getrandbits(width) for _ in range(r.randint(1, depth))]
     two = r.random() < 0.35
     domains = ["sys", "b"] if two else ["sys"]
@@ -508,22 +518,32 @@ def gen_mem(r, tier):
         if wc and width % 8 == 0 and width > 8 and r.random() < 0.5:
             gran = 8 if r.random() < 0.7 else width // 2
         async_read = r.random() < 0.25
+        modes = ["WRITE_FIRST", "READ_FIRST", "NO_CHANGE"] if wc else ["WRITE_FIRST", "READ_FIRST"]
+        if gran:
+            modes = modes[:2]       # NO_CHANGE with byte enables: `if (!we)` vs If(~we) - listed finding C01-F9
+        if two:
+            modes = ["READ_FIRST"]  # ports in different clock domains are forced read-first in the Verilog only - listed finding C01-F8
         ports.append({"write_capable": wc, "async_read": async_read, "has_re": (not async_read) and r.random() < 0.3,
-                      "we_granularity": gran, "mode": r.choice(["WRITE_FIRST", "READ_FIRST", "NO_CHANGE"]),
+                      "we_granularity": gran, "mode": r.choice(modes),
                       "dom": r.choice(domains)})
     n = r.randint(40, 100) if tier == "quick" else r.randint(80, 400)
     abits = max(1, (depth - 1).bit_length())
     stim = []
     for _ in range(n):
         row = []
+        written = set()
         for p in ports:
             # address (mostly in range, sometimes beyond for non-power-of-two depths), data, we mask, re
             a = r.randrange(depth) if r.random() < 0.9 else r.getrandbits(abits)
             if a >= depth:
                 a = depth - 1          # out-of-range addresses: Verilog X / Python IndexError, outside the property (illegal)
             nwe = (width // p["we_granularity"]) if p["we_granularity"] else 1
-            row.append([a, corner(r, width), (r.getrandbits(nwe) if r.random() < 0.5 else 0) if p["write_capable"] else 0,
-                        int(r.random() < 0.7)])
+            we = (r.getrandbits(nwe) if r.random() < 0.5 else 0) if p["write_capable"] else 0
+            if we and a in written:
+                we = 0          # two ports writing one word in the same tick: undefined for any dual-port RAM, not generated
+            if we:
+                written.add(a)
+            row.append([a, corner(r, width), we, int(r.random() < 0.7)])
         stim.append(row)
     scn = {"family": "mem", "width": width, "depth": depth, "init": init, "ports": ports, "domains": domains, "ticks": n,
            "stim": stim, "proc_seed": r.getrandbits(32)}
@@ -533,15 +553,13 @@ def gen_mem(r, tier):
     return scn
 
 
-CORPUS = ["SyncFIFO", "Converter", "Gearbox", "Packetizer", "Depacketizer", "WishboneSRAM", "Timer", "Encoder8b10b", "Decoder8b10b",
-          "UARTPHY", "WaitTimer", "PulseSynchronizer", "ECC", "Buffer", "AXILiteSRAM", "Arbiter"]
-
-
 def gen_corpus(r, tier):
-    core = r.choice(CORPUS)
+    from props import c01_corpus
+    from dsim.cdc import gen_schedule
+    core = r.choice(c01_corpus.CORES)
     n = r.randint(60, 150) if tier == "quick" else r.randint(200, 1500)
     return {"family": "corpus", "core": core, "param_seed": r.getrandbits(32), "ticks": n, "stim_seed": r.getrandbits(32),
-            "proc_seed": r.getrandbits(32)}
+            "proc_seed": r.getrandbits(32), "schedule": gen_schedule(r, n, ndom=2)[0], "p_active": r.choice([0.3, 0.7, 1.0]), "p_rst": 0.02}
 
 
 # ------------------------------------------------------------------------------------------------
@@ -645,7 +663,7 @@ def build_mem(scn):
     m = Module()
     cds = {}
     for d in scn["domains"]:
-        cd = ClockDomain(d, reset_less=True)
+        cd = ClockDomain(d, reset_less=not scn.get("with_reset"))
         setattr(m.clock_domains, "cd_" + d, cd)
         cds[d] = cd
     mem = Memory(scn["width"], scn["depth"], init=scn["init"], name="mem")
@@ -668,6 +686,8 @@ def build_mem(scn):
                        "re": port.re if p["has_re"] else None})
     for cd in cds.values():
         ios.add(cd.clk)
+        if cd.rst is not None:
+            ios.add(cd.rst)
     return {"module": m, "signals": sigs, "ios": ios, "cds": cds, "inputs": inputs, "mems": [mem]}
 
 
@@ -702,7 +722,7 @@ def run_design(scn, build):
     from dsim.kernel import SeededClocks
     from dsim import vsim
     viols = []
-    stats = {"cycles": 0, "checks": 0, "nontrivial": 0, "faults": {}, "probes": {}, "fingerprints": 0}
+    stats = {"cycles": 0, "checks": 0, "nontrivial": 0, "faults": {}, "probes": {}, "fingerprints": []}
 
     def V(cls, obs, msg, cycle=None):
         if len(viols) < 4:
@@ -723,19 +743,32 @@ def run_design(scn, build):
             names.append(None)
     in_names_a = inputs_names(da, r.ns)
     clk_names = {d: r.ns.get_name(cd.clk) for d, cd in da["cds"].items()}
-    rst_names = {d: r.ns.get_name(cd.rst) for d, cd in da["cds"].items() if cd.rst is not None}
+    rsts_a = da.get("rsts", {d: cd for d, cd in da["cds"].items() if cd.rst is not None})
+    rst_names = {d: r.ns.get_name(cd.rst) for d, cd in rsts_a.items()}
     mem_names = [r.ns.get_name(mm) for mm in da["mems"]]
     data_files = {k: v for k, v in r.data_files.items()} if hasattr(r, "data_files") else {}
     try:
-        des = vsim.Design(text, data_files=data_files, rng=random.Random(scn.get("proc_seed", 0)))
+        des = vsim.Design(text, data_files=data_files, rng=random.Random(scn.get("proc_seed", 0)),
+                          t0_policy=scn.get("t0_policy", "settle"), glitch=bool(scn.get("glitch")))
     except vsim.VError as e:
-        V("verilog_rejected", "text", "the emitted Verilog is outside IEEE-1364 / the emitted subset: %s" % e)
+        V("oscillation" if "convergence" in str(e) else "verilog_rejected", "design" if "convergence" in str(e) else "text",
+          "the emitted Verilog cannot be executed: %s" % e)
         return {"violations": viols, "digest": hashlib.sha256(text.encode()).hexdigest()[:16], "stats": stats}
 
+    regs_a = set()          # registers of the netlist = targets of its posedge blocks
+    for p in des.procs:
+        if p["kind"] == "sync":
+            des.targets_of_stmt(p["body"], regs_a)
+    # an undriven signal with a reset value is an input port of the netlist: the environment holds it at that value from time 0
+    for x in da["inputs"]:
+        for sg in (x.values() if isinstance(x, dict) else [x]):
+            if sg is not None and sg.reset.value:
+                des.set_input(r.ns.get_name(sg), sg.reset.value)
+    des.settle()
     # ---- reference: simulate a second instance
     boot.reset_globals()
     db = build(scn)
-    domains = scn["domains"] if "domains" in scn else list(db["cds"].keys())
+    domains = list(db["cds"].keys())
     domains = sorted(domains)
     ticks = scn["ticks"]
     stim = stimulus(scn, db)
@@ -743,6 +776,9 @@ def run_design(scn, build):
     toggled = set()
     nx = [0, 0]
     prev = {}
+
+    has_mem = bool(db["mems"])
+    rst_ids = {id(cd.rst) for cd in db.get("rsts", {d: cd for d, cd in db["cds"].items() if cd.rst is not None}).values()}
 
     def driver(dom):
         ev = sim.evaluator
@@ -755,15 +791,24 @@ def run_design(scn, build):
             if state["last"] != t:
                 state["last"] = t
                 k = state["tick"]
+                if mon.hit is not None:
+                    # the simulator just used a value that does not fit the Verilog type of its expression in a non-modular
+                    # position: from here on the two semantics part for a listed reason (not a translation defect)
+                    state["done"] = True
+                    state["tainted"] = mon.hit
+                    return
                 # 1. compare the state before this tick's edges
                 for idx, (s, nm) in enumerate(zip(db["signals"], names)):
-                    if nm is None or nm not in des.vars:
+                    if nm is None or nm not in des.vars or id(s) in f8_skip:
                         continue
                     ref = sv.get(s, s.reset.value) & ((1 << len(s)) - 1)
-                    got = des.vars[nm]["val"]
+                    got = des.get(nm)
                     nx[0] += 1
                     if got is None:
                         nx[1] += 1
+                        if k == 0 and ref != 0 and nm in regs_a:
+                            V("uninitialised_register", nm, "the simulation starts %s at its reset value 0x%x, the generated Verilog declares "
+                              "the register without an initial value (X under 1364, 0 on an FPGA)" % (nm, ref), 0)
                         continue
                     stats["checks"] += 1
                     if prev.get(idx) not in (None, ref):
@@ -773,10 +818,9 @@ def run_design(scn, build):
                         V("value_mismatch", nm, "tick %d: simulation has %s = 0x%x, the generated Verilog computes 0x%x (width %d)"
                           % (k, nm, ref, got, len(s)), k)
                 for arr, mn in zip(mem_arrays, mem_names):
-                    words = des.mems[mn]["words"]
-                    for wi in range(min(len(words), len(arr))):
+                    for wi in range(min(des.mems[mn]["depth"], len(arr))):
                         s = arr[wi]
-                        got = words[wi]
+                        got = des.get_word(mn, wi)
                         nx[0] += 1
                         if got is None:
                             nx[1] += 1
@@ -786,17 +830,42 @@ def run_design(scn, build):
                         if got != ref:
                             V("memory_mismatch", "%s[%d]" % (mn, wi), "tick %d: simulation holds 0x%x, the generated Verilog holds 0x%x"
                               % (k, ref, got), k)
+                if scn.get("_watch"):
+                    print("t%d" % k, " ".join("%s=%x/%s" % (nm, sv.get(s_, s_.reset.value) & ((1 << len(s_)) - 1), des.get(nm))
+                                              for s_, nm in zip(db["signals"], names) if nm in scn["_watch"] and nm in des.vars))
+                if viols and scn.get("_debug"):
+                    print("---- tick", k, "all values (name, sim, verilog) ----")
+                    for s_, nm in zip(db["signals"], names):
+                        if nm in des.vars:
+                            ref = sv.get(s_, s_.reset.value) & ((1 << len(s_)) - 1)
+                            got = des.get(nm)
+                            print("  %-40s %x %s%s" % (nm, ref, "X" if got is None else "%x" % got, "   <<<<" if got not in (None, ref) else ""))
                 if viols or k >= ticks:
                     state["done"] = True
                     return
                 # 2. edges in the Verilog world, then new inputs in both
                 rising = [d for d in domains if d in clocks.current] if len(domains) > 1 else list(domains)
-                des.posedge([clk_names[d] for d in rising])
+                try:
+                    des.posedge([clk_names[d] for d in rising])
+                except vsim.VError as e:
+                    V("oscillation" if "convergence" in str(e) else "verilog_rejected", "design", "tick %d: %s" % (k, e), k)
+                    state["done"] = True
+                    return
                 writes = []
                 for (sig_b, name_a, val) in stim(k):
                     writes.append(sig_b.eq(val))
                     des.set_input(name_a, val)
-                des.settle()
+                    if val and id(sig_b) in rst_ids:
+                        state["rst_ticks"] = state.get("rst_ticks", 0) + 1
+                    if val and has_mem and id(sig_b) in rst_ids and mon.hit is None and not scn.get("no_monitor"):
+                        # listed finding C01-F12: a domain reset clears memory words and read registers in the simulator only
+                        mon.hit = "domain reset while the design contains memories"
+                try:
+                    des.settle()
+                except vsim.VError as e:
+                    V("oscillation" if "convergence" in str(e) else "verilog_rejected", "design", "tick %d: %s" % (k, e), k)
+                    state["done"] = True
+                    return
                 state["tick"] = k + 1
                 if writes:
                     yield writes
@@ -805,6 +874,24 @@ def run_design(scn, build):
     clocks = SeededClocks(domains, scn.get("schedule"))
     sim = Simulator(db["module"], {d: [] for d in domains}, clocks={d: 10 for d in domains})
     sim.time = clocks
+    from dsim import taint
+    mon = taint.Monitor()
+    mon.add_fragment(sim.fragment, [sim.evaluator.replaced_memories[mm] for mm in db["mems"]])
+    if not scn.get("no_monitor"):       # canonical replays of the listed semantic-gap findings run without the monitor
+        mon.attach(sim.evaluator)
+    # listed finding C01-F8: a memory with ports in different clock domains is forced read-first in the Verilog only; the read
+    # data of its write-first / no-change ports is not compared, and a design that USES such read data is not compared at all
+    f8_skip = set()
+    from migen.fhdl.specials import READ_FIRST
+    for mm in db["mems"]:
+        if len({p.clock.cd for p in mm.ports}) > 1 and not scn.get("no_f8_skip"):
+            for p in mm.ports:
+                if not p.async_read and p.mode != READ_FIRST:
+                    f8_skip.add(id(p.dat_r))
+    if f8_skip:
+        from migen.fhdl.tools import list_inputs
+        if any(id(x) in f8_skip for x in list_inputs(sim.fragment)):
+            mon.hit = "multi-clock memory forced read-first in the Verilog (C01-F8) and its read data is used"
     stim = bind_stimulus(stim, db, in_names_a, rst_names, scn)
     for d in domains:
         sim.generators[d] = [driver(d)]
@@ -813,14 +900,18 @@ def run_design(scn, build):
     finally:
         sim.close()
     stats["cycles"] = state["tick"]
-    stats["probes"] = {"x_values_skipped": nx[1], "signals_toggled": len(toggled), "two_domains": int(len(domains) > 1),
+    stats["faults"] = {"proc_order_choice": des.order_choices, "coincident_clock_edges": clocks.coincident, "reset_pulse_ticks": state.get("rst_ticks", 0)}
+    if state.get("tainted"):
+        stats["faults"]["semantic_gap:" + state["tainted"][:60]] = 1
+    stats["probes"] = {"x_values_skipped": nx[1], "ended_at_semantic_gap": int(bool(state.get("tainted"))), "signals_toggled": len(toggled), "two_domains": int(len(domains) > 1),
                        "vsim_process_evals": des.steps}
-    if state["tick"] >= 20 and len(toggled) >= 3 and nx[1] * 2 <= nx[0]:
+    if state["tick"] >= 20 and len(toggled) >= min(3, len(prev)) and len(toggled) >= 1 and nx[1] * 2 <= nx[0]:
         stats["nontrivial"] = 1
     h = hashlib.sha256(strip_banner(text).encode())
     h.update(repr(scn.get("stim") if not isinstance(scn.get("stim"), list) else len(scn["stim"])).encode())
     h.update(repr(scn.get("schedule")).encode())
-    stats["fingerprints"] = len(toggled)
+    stats["fingerprints"] = [hashlib.sha256(strip_banner(text).encode()).hexdigest()[:12]]
+    stats["disagreements_checked"] = int(bool(viols) or bool(state.get("tainted")))
     return {"violations": viols, "digest": h.hexdigest()[:16], "stats": stats}
 
 
@@ -878,19 +969,38 @@ def bind_stimulus(scn, db, in_names_a, rst_names, scn2):
                         out.append((port["we"], nms["we"], row[2] & ((1 << len(port["we"])) - 1)))
                     if port["re"] is not None:
                         out.append((port["re"], nms["re"], row[3]))
+            for d, cd in db["cds"].items():
+                if cd.rst is not None and d in rst_names:
+                    p = scn.get("rst", {}).get(d, "")
+                    out.append((cd.rst, rst_names[d], int(k < len(p) and p[k] == "1")))
             return out
         return f
     if fam == "corpus":
         ins = db["inputs"]
         rr = random.Random(scn["stim_seed"])
-        table = [[corner(rr, len(s)) if rr.random() < 0.7 else 0 for s in ins] for _ in range(scn["ticks"])]
-        holds = db.get("hold", {})
+        pa = scn.get("p_active", 0.7)
+        # 1-bit controls are held for a few ticks (handshakes get a chance to complete), data changes freely
+        table = []
+        cur = [0] * len(ins)
+        for _ in range(scn["ticks"]):
+            for j, s in enumerate(ins):
+                if len(s) == 1:
+                    if rr.random() < 0.4:
+                        cur[j] = int(rr.random() < pa)
+                else:
+                    if rr.random() < 0.7:
+                        cur[j] = corner(rr, len(s))
+            table.append(list(cur))
+        rst_tab = {d: [int(rr.random() < scn.get("p_rst", 0.02)) for _ in range(scn["ticks"])] for d in sorted(rst_names)}
+        rsts_b = db.get("rsts", {})
 
         def f(k):
             out = []
             if k < len(table):
                 for s, nm, v in zip(ins, in_names_a, table[k]):
                     out.append((s, nm, v))
+                for d in rst_tab:
+                    out.append((rsts_b[d].rst, rst_names[d], rst_tab[d][k]))
             return out
         return f
     raise ValueError(fam)
@@ -991,3 +1101,57 @@ def shrink_candidates(scn):
             c = copy.deepcopy(scn)
             c["sync"][d] = copy.deepcopy(v)
             yield c
+
+
+# ------------------------------------------------------------------------------------------------
+# listed findings (only their canonical replay files carry the switches below; the generators never set them and never
+# enter the two structural regions F5 / F9)
+# ------------------------------------------------------------------------------------------------
+def _has_multi_cat_target(stmts):
+    for st in stmts:
+        if st[0] == "=":
+            if st[1][0] == "cat" and len({x[1] for x in st[1][1]}) > 1:
+                return True
+        elif st[0] == "if":
+            if _has_multi_cat_target(st[2]) or _has_multi_cat_target(st[3]):
+                return True
+        elif st[0] == "case":
+            if any(_has_multi_cat_target(b) for _, b in st[2]) or _has_multi_cat_target(st[3] or []):
+                return True
+    return False
+
+
+def known_match(scn, v):
+    fam = scn.get("family")
+    cls = v["cls"]
+    if scn.get("glitch") and cls == "oscillation":
+        return "C01-F6"
+    if scn.get("t0_policy") == "strict" and cls == "value_mismatch":
+        return "C01-F7"
+    if fam in ("frag", "wild", "exh") and scn.get("regular_comb") is False and _has_multi_cat_target(scn.get("comb", [])) and cls in ("value_mismatch", "verilog_rejected"):
+        return "C01-F5"
+    if fam == "mem":
+        if scn.get("no_f8_skip") and len(scn.get("domains", [])) > 1 and any(p["mode"] != "READ_FIRST" and not p["async_read"] for p in scn["ports"]):
+            return "C01-F8"
+        if any(p["mode"] == "NO_CHANGE" and p["we_granularity"] for p in scn["ports"]):
+            return "C01-F9"
+        if scn.get("with_reset") and scn.get("no_monitor"):
+            return "C01-F12"
+    if scn.get("no_monitor") and cls == "value_mismatch":
+        return "C01-F11"
+    return None
+
+
+def extra_coverage(results):
+    texts = set()
+    gap = 0
+    for r in results:
+        st = r.get("stats", {})
+        texts.update(st.get("fingerprints", ()))
+        gap += st.get("probes", {}).get("ended_at_semantic_gap", 0)
+    return {"distinct_verilog_texts": len(texts), "runs_ended_at_a_listed_semantic_gap": gap,
+            "explanation": "programs = designs converted by the real backend and co-simulated (distinct_verilog_texts of them textually "
+                           "distinct); oracle_comparisons = value comparisons simulator vs Verilog interpreter (one per signal / memory word and "
+                           "tick, undefined Verilog values skipped); disagreements_checked = runs in which the two executions were about to "
+                           "disagree or disagreed and the disagreement was adjudicated: ended by the simulator-side monitor at a listed "
+                           "semantic gap (C01-F11/F12/F8), matched to a listed finding, or reported as a violation"}
